@@ -10,7 +10,8 @@ VERIF = run.VERIF
 class Scenario:
     def __init__(self, name, src, defines=(), threads=1, K=2, unwind=4, tier='quick', cover=(), timeout=None,
                  ndebug=True, note='', mt=None, unwind_map=None, prop=None, allow_unwound=False, assert_build=False,
-                 stop=(), uninit_zero=False, lin=None, portfolio=None, expect_violation=False, progress=(), sym_loop_cap=None, max_recursion=None, race=False):
+                 stop=(), uninit_zero=False, lin=None, portfolio=None, expect_violation=False, progress=(), sym_loop_cap=None, max_recursion=None, race=False, prune=False):
+        self.prune = prune
         self.name = name; self.src = src if os.path.isabs(src) else os.path.join(VERIF, 'harness', src)
         self.defines = list(defines); self.threads = threads; self.K = K; self.unwind = unwind; self.tier = tier
         self.cover = list(cover); self.timeout = timeout; self.ndebug = ndebug; self.note = note
@@ -96,6 +97,10 @@ def _execute1(sc, mod, fixed, posmap, log, strict=False, fixed_sched=None, allow
         from . import z3b
         z3b.reset()
         m.pruner = z3b.Pruner(timeout_ms=int(os.environ.get('XSYM_PRUNE_MS', '3000'))); m.prune_iter = True
+    if not sc.mt and getattr(sc, 'prune', False) and not fixed:
+        from . import z3b
+        z3b.reset()
+        m.pruner = z3b.Pruner(timeout_ms=int(os.environ.get('XSYM_PRUNE_MS', '3000'))); m.prune_iter = True; m.do_restrict = True
     m.allow_missing = allow_missing
     if fixed_named: m.fixed_named = dict(fixed_named)
     m.fixed_sched = fixed_sched if posmap is not None else None
@@ -115,6 +120,10 @@ def _execute1(sc, mod, fixed, posmap, log, strict=False, fixed_sched=None, allow
     if 'vp_final' in mod.funcs:
         m.cur = m.threads[0]
         m.run_entry('vp_final')
+    if m.pruner is not None:
+        pr = m.pruner
+        m.stats['prune_calls'] = pr.calls; m.stats['prune_unsat'] = pr.pruned; m.stats['prune_model_hits'] = pr.model_hits
+        m.stats['prune_unknown'] = pr.unknown; m.stats['prune_s'] = round(pr.time, 1)
     return m
 
 
